@@ -17,7 +17,7 @@ import (
 )
 
 const prelude = `
-var OBJ=[], SYM=[Symbol('y0'),Symbol('y1'),Symbol('y2')], LOG=[];
+var OBJ=[], SYM=[Symbol('y0'),Symbol('y1'),Symbol('y2'),Symbol.iterator,Symbol.hasInstance,Symbol.toStringTag,Symbol.toPrimitive,Symbol.unscopables,Symbol.species,Symbol.match,Symbol.matchAll,Symbol.replace,Symbol.search,Symbol.split,Symbol.asyncIterator,Symbol.isConcatSpreadable], LOG=[];
 function tf(b){ return b?"t":"f"; }
 function idOf(x){ var i=OBJ.indexOf(x); return i>=0?("o"+i):"p"; }
 var FN=[0,1,2,3].map(function(i){ return function(v){ "use strict"; if(arguments.length===0){ LOG.push("g"+i+"@"+idOf(this)); return 300+i; } LOG.push("s"+i+"@"+idOf(this)+"="+tok(v)); }});
@@ -96,6 +96,9 @@ func valExpr(t string) string {
 	case strings.HasPrefix(t, "r"):
 		n, _ := strconv.Atoi(t[1:])
 		return strconv.Itoa(300 + n)
+	case strings.HasPrefix(t, "l"):
+		n, _ := strconv.Atoi(t[1:])
+		return strconv.Itoa(n) // a small number (array lengths)
 	case strings.HasPrefix(t, "f"):
 		return "FN[" + t[1:] + "]"
 	case strings.HasPrefix(t, "o"):
@@ -147,6 +150,9 @@ func (s *state) goVal(t string) goja.Value {
 	case strings.HasPrefix(t, "n"):
 		n, _ := strconv.Atoi(t[1:])
 		return s.r.ToValue(100 + n)
+	case strings.HasPrefix(t, "l"):
+		n, _ := strconv.Atoi(t[1:])
+		return s.r.ToValue(n)
 	case strings.HasPrefix(t, "f"):
 		n, _ := strconv.Atoi(t[1:])
 		return s.r.Get("FN").ToObject(s.r).Get(strconv.Itoa(n))
@@ -271,6 +277,32 @@ func (s *state) mk(id int, kind, proto string) string {
 		v, err = s.r.RunString("new String('ab')")
 	case "u8":
 		v, err = s.r.RunString("new Uint8Array(2)")
+	case "arr":
+		v, err = s.r.RunString("[101,102,103]")
+	case "sparr":
+		v, err = s.r.RunString("(function(){var a=[101]; a[5000]=102; return a})()")
+	case "fproto":
+		v, err = s.r.RunString("Function.prototype")
+	case "aproto":
+		v, err = s.r.RunString("Array.prototype")
+	case "sproto":
+		v, err = s.r.RunString("String.prototype")
+	case "dproto":
+		v, err = s.r.RunString("Date.prototype")
+	case "taproto":
+		v, err = s.r.RunString("Object.getPrototypeOf(Uint8Array.prototype)")
+	case "mapproto":
+		v, err = s.r.RunString("Map.prototype")
+	case "setproto":
+		v, err = s.r.RunString("Set.prototype")
+	case "promproto":
+		v, err = s.r.RunString("Promise.prototype")
+	case "symproto":
+		v, err = s.r.RunString("Symbol.prototype")
+	case "regproto":
+		v, err = s.r.RunString("RegExp.prototype")
+	case "json":
+		v, err = s.r.RunString("JSON")
 	case "math":
 		v, err = s.r.RunString("Math")
 	case "global":
